@@ -52,7 +52,9 @@ def leaf_value(x):
         'self-loops and cycles, nested list/tuple/dict/None containers, raw '
         'arrays, statics, attribute names that sort differently as str): '
         'canon(merge(split(g))) == canon(g) with an independent canonical '
-        'form; g untouched and shares no node/Variable with the result; '
+        'form; g untouched and shares no node/Variable with the result; a '
+        'second merge of the same (graphdef, state) after the first result '
+        'was edited in place (values, metadata) is isomorphic to g again; '
         'clone; graphdef equality/hash; iter_graph; state; non-trivial = '
         'graph has an alias (in-degree>1) or a cycle')
 def roundtrip(case, ctx):
@@ -81,6 +83,20 @@ def roundtrip(case, ctx):
   require(gd2 == gd and hash(gd2) == hash(gd), 'graphdef(g) != split(g)[0]')
   require(gd3 == gd and hash(gd3) == hash(gd),
           'isomorphic graphs have different graphdefs')
+  # (gd, state) is a snapshot: editing the merged graph in place (values and
+  # Variable metadata) must not leak into it
+  for v in vb.values():
+    v.raw_value = v.raw_value + 500.0
+    setattr(v, 'zz_edit', 7)
+    if 'tag' in v.get_metadata():
+      v.tag = 'edited'
+  with sut('second merge of the same (graphdef, state)'):
+    back2 = nnx.merge(gd, state)
+  cb2 = G.canon(back2)
+  require(cb2 == c0, lambda: 'merge(split(g)) after editing the first merged '
+          f'graph in place is not isomorphic to g:\n g     {c0}\n back2 {cb2}')
+  _, vb2 = G.identities(back2)
+  require(not (set(vb2) & set(vb)), 'two merges of one state share Variables')
   # clone
   with sut('clone'):
     cl = nnx.clone(root)
